@@ -375,6 +375,29 @@ func curStmtRule(r *Run, rule string) {
 		r.Lost(rule, "paths of the top-level evaluator")
 		return
 	}
+	// ... and the reset belongs to the iteration: it sits in the loop over the statements (directly, or in a helper
+	// called from inside the loop), not in front of it
+	topLoop := map[*ssa.BasicBlock]bool{}
+	for _, b := range m.top.Blocks {
+		if isLoopHeader(b) {
+			for x := range loopBodyOf(b) {
+				topLoop[x] = true
+			}
+		}
+	}
+	perIteration := func(p *pwPath, at int) bool {
+		// the event comes after the path's first decision at the head of the loop (the loop has been entered)
+		for di, d := range p.decisions {
+			if d.at == nil {
+				continue
+			}
+			ins := origInstr(d.at)
+			if ins.Parent() == m.top && isLoopHeader(ins.Block()) && topLoop[ins.Block()] {
+				return p.evDecided[at] > di
+			}
+		}
+		return false
+	}
 	nIter, okReset := 0, true
 	var resetPos token.Pos = m.top.Pos()
 	licensed := map[*ssa.Function]bool{m.top: true, m.stmt: true}
@@ -392,6 +415,9 @@ func curStmtRule(r *Run, rule string) {
 						_, isElem = ld.X.(*ssa.IndexAddr)
 					}
 					if !isNil && !isElem {
+						okReset = false
+					}
+					if !perIteration(p, i) {
 						okReset = false
 					}
 				}
